@@ -208,3 +208,66 @@ func VerifC07_ReclaimTwoLeafQueues() {
 	final := sD.Allocated - v1 - v2
 	vr.Assert(c07OverDeservedOrFair(sD, final+larger), "C07.department-above-deserved-or-fair-share-before-its-last-victim")
 }
+
+// c07NotMoreSaturated: the oracle of clause (d) - after the reclaim the queue A (allocation aAfter,
+// fair share aFS) is not both above its fair share and at least as saturated as the sibling S it took
+// from (ratios compared by cross-multiplication).
+func c07NotMoreSaturated(aAfter, aFS, sAfter, sFS float64) bool {
+	aboveFair := aAfter > aFS
+	var atLeastAsSaturated bool
+	switch {
+	case aFS == 0 && sFS == 0:
+		atLeastAsSaturated = aAfter > 0 || sAfter == 0
+	case aFS == 0:
+		atLeastAsSaturated = aAfter > 0
+	case sFS == 0:
+		atLeastAsSaturated = sAfter == 0
+	default:
+		atLeastAsSaturated = aAfter*sFS >= sAfter*aFS
+	}
+	return !(aboveFair && atLeastAsSaturated)
+}
+
+// VerifC07_ReclaimWithinAndAcrossDepartments: one scenario with two victims - one in the reclaimer's
+// own department (leaf P2, sibling of the reclaimer's leaf P1 under D1) and one in another
+// department (leaf P3 under D2): the shared ancestor D1 must be judged with its true remaining
+// allocation.
+// BOUND: GPU dimension; quantities integers < 2^6; tree D1 <- P1, P2 ; D2 <- P3; one victim from P2 and one from P3; multiplier 1; no limits; preemptible reclaimer
+// ASSUME: reachable queue states as in VerifC07_Reclaim; children's allocations and fair shares sum to at most the department's; sibling fair shares positive (the zero-fair-share sibling is the recorded finding of VerifC07_Reclaim)
+func VerifC07_ReclaimWithinAndAcrossDepartments() {
+	const bits = 6
+	active := rs.GpuResource
+	D1 := c07QueueBits("D1", "", active, bits)
+	D2 := c07QueueBits("D2", "", active, bits)
+	P1 := c07QueueBits("P1", "D1", active, bits)
+	P2 := c07QueueBits("P2", "D1", active, bits)
+	P3 := c07QueueBits("P3", "D2", active, bits)
+	D1.ChildQueues = []common_info.QueueID{"P1", "P2"}
+	D2.ChildQueues = []common_info.QueueID{"P3"}
+	queues := map[common_info.QueueID]*rs.QueueAttributes{"D1": D1, "D2": D2, "P1": P1, "P2": P2, "P3": P3}
+	d1, d2, p1, p2, p3 := D1.ResourceShare(active), D2.ResourceShare(active), P1.ResourceShare(active), P2.ResourceShare(active), P3.ResourceShare(active)
+	for _, s := range []*rs.ResourceShare{d1, d2, p1, p2, p3} {
+		vr.Assume(s.MaxAllowed == -1 && s.AllocatedNotPreemptible == 0)
+	}
+	vr.Assume(p1.Allocated+p2.Allocated <= d1.Allocated && p3.Allocated <= d2.Allocated)
+	vr.Assume(p1.FairShare+p2.FairShare <= d1.FairShare && p3.FairShare <= d2.FairShare)
+	vr.Assume(d2.FairShare > 0 && p2.FairShare > 0)
+	req := vr.AnyFloatNat("req", bits)
+	v2 := vr.AnyFloatNat("victim2", bits)
+	v3 := vr.AnyFloatNat("victim3", bits)
+	vr.Assume(req > 0 && v2 > 0 && v3 > 0 && v2 <= p2.Allocated && v3 <= p3.Allocated)
+	r := New(1)
+	info := &ReclaimerInfo{Name: "j", Namespace: "ns", Queue: P1.UID, IsPreemptable: true, RequiredResources: c07Res(active, req)}
+	can := r.CanReclaimResources(queues, info)
+	ok := r.Reclaimable(queues, info, map[common_info.QueueID][]*resource_info.Resource{
+		P2.UID: {c07Res(active, v2)}, P3.UID: {c07Res(active, v3)}})
+	vr.Observe("can", can)
+	vr.Observe("reclaimable", ok)
+	if !can || !ok {
+		return
+	}
+	// department level: D1 (receives req, loses v2) against D2 (loses v3)
+	vr.Assert(c07NotMoreSaturated(d1.Allocated+req-v2, d1.FairShare, d2.Allocated-v3, d2.FairShare), "C07.reclaimers-department-not-above-fair-share-and-more-saturated-than-victim-department")
+	// leaf level inside D1: P1 (receives req) against P2 (loses v2)
+	vr.Assert(c07NotMoreSaturated(p1.Allocated+req, p1.FairShare, p2.Allocated-v2, p2.FairShare), "C07.reclaimers-queue-not-above-fair-share-and-more-saturated-than-sibling-queue")
+}
